@@ -26,6 +26,10 @@ def make_values(kind, n_changes):
     raise KeyError(kind)
 
 
+class Runaway(BaseException):
+    pass
+
+
 def judge(ctx, last, head, changes, step, kind):
     from pytezos.rpc import search as S
     changes = sorted(changes)
@@ -37,8 +41,12 @@ def judge(ctx, last, head, changes, step, kind):
 
     probes = []
 
+    budget = 200 * (head - last + 2) + 1000     # logical bound: a search over R levels has no reason to read more than a few R
+
     def get(level):
         probes.append(level)
+        if len(probes) > budget:
+            raise Runaway('more than %d reads for a range of %d levels' % (budget, head - last))
         return value_at(level)
 
     def equals(a, b):
@@ -51,6 +59,12 @@ def judge(ctx, last, head, changes, step, kind):
     ctx.case((last, head, tuple(changes), step, kind), nontrivial=len(changes) >= 1)
     try:
         got = list(S.find_state_changes(head, last, get, equals, step=step))
+    except Runaway as e:
+        ctx.count('get_probes', len(probes))
+        return ctx.violation('C29|search-does-not-terminate|' + kind, str(e), case)
+    except RecursionError as e:
+        ctx.count('get_probes', len(probes))
+        return ctx.violation('C29|find_state_changes-raises|RecursionError|' + kind, repr(e)[:100], case)
     except Exception as e:
         ctx.count('get_probes', len(probes))
         return ctx.violation('C29|find_state_changes-raises|%s|%s' % (type(e).__name__, kind), repr(e), case)
@@ -76,6 +90,8 @@ def judge(ctx, last, head, changes, step, kind):
         probes.clear()
         try:
             lvl, val = S.find_state_change(head, last, get, equals, pred_value=value_at(last))
+        except Runaway as e:
+            return ctx.violation('C29|search-does-not-terminate|single|' + kind, str(e), case)
         except Exception as e:
             return ctx.violation('C29|find_state_change-raises|%s|%s' % (type(e).__name__, kind), repr(e), case)
         ctx.count('single_searches')
